@@ -21,7 +21,10 @@ RULE = ('IPTW: random data sets (n 150-400) with a 2-3 level categorical, a bina
         'cell of weights x standardize(3) x {unstabilized, stabilized x numerator model(2)} x bound(none, symmetric '
         'float, asymmetric pair) on a fresh IPTW object; IPTW.missing_model: stabilized x numerator x bound on data with '
         'outcome missingness depending on treatment and covariates; StochasticIPTW: p grid incl. 0 and 1 and 2-3 '
-        'exclusive exhaustive conditions; IPMW: every monotone pattern type over 1-3 variables (each adjacent pair strict '
+        'exclusive exhaustive conditions; histories on ONE IPTW object (re-specified treatment / missing models, diagnostics, '
+        'repeated fit) judged after every step against the documented weights of the last specification and against a '
+        'fresh object; rare / near-universal treatment (marginal numerator outside the truncation bounds); fixed-width '
+        'integer columns with string or repeated row labels; IPMW: every monotone pattern type over 1-3 variables (each adjacent pair strict '
         'or uniform: 7 types) x stabilized x index labelling (default / shifted / shuffled) x model-list length, plus a '
         'malformed stream (non-monotone rows incl. one confined to the first row, a variable without NaN); IPCW: long '
         'person-period tables (10-60 subjects, 2-7 unit intervals, fractional last interval, administrative censoring '
@@ -121,29 +124,33 @@ def frame_hash(df):
 
 def guard(chk, kind, cfg, rec, fn, *args):
     """run one cell; an exception raised inside zEpid on a valid input is a failure of the property (no weights were
-    produced), recorded with a replayable case; an exception of the harness itself propagates (tool failure)"""
+    produced); an exception raised while the harness digests zEpid's output (NaN where a number must be, wrong shape,
+    missing attribute) is one as well.  Both are recorded as D failures with a replayable case, never a tool failure."""
     import traceback
     import common
     try:
         fn(chk, *args)
     except Exception as e:
         frames = traceback.extract_tb(e.__traceback__)
-        if not any(f.filename.startswith(common.REPO + '/zepid') for f in frames):
-            raise
+        where = 'raised' if any(f.filename.startswith(common.REPO + '/zepid') for f in frames) else \
+            'returned something the check cannot digest:'
         chk.case({'kind': kind, 'cfg': cfg}, None)
-        chk.d(False, '%s raised %s on a valid input: %s' % (kind, type(e).__name__, str(e)[:120]),
+        chk.d(False, '%s %s %s on a valid input: %s' % (kind, where, type(e).__name__, str(e)[:120]),
               {'kind': kind, 'cfg': cfg, 'data': rec, 'traceback': traceback.format_exc()[-1500:]})
 
 
 # ------------------------------------------------------------------------------------------- IPTW
-def mixed_dataset(rng, missing=False):
-    n = int(rng.integers(150, 400))
+def mixed_dataset(rng, missing=False, prevalence=None):
+    """prevalence: None (around 0.45) | 'low' (Pr(A=1) about 0.08) | 'high' (about 0.92): rare / near-universal treatment,
+    so that a marginal numerator probability falls outside ordinary truncation bounds"""
+    n = int(rng.integers(150, 400)) if prevalence is None else int(rng.integers(400, 700))
     k1 = int(rng.integers(2, 4))
     L1 = rng.integers(0, k1, size=n)
     L2 = rng.integers(0, 2, size=n)
     x = np.round(rng.normal(0, 1, size=n), 3)
     b = rng.uniform(-0.6, 0.6, size=4)
     lin = -0.2 + b[0] * L2 + b[1] * (L1 == 1) + b[2] * (L1 == 2) + (0.3 + abs(b[3])) * x
+    lin = lin + {None: 0.0, 'low': -2.4, 'high': 2.4}[prevalence]
     A = (rng.uniform(size=n) < 1 / (1 + np.exp(-lin))).astype(int)
     py = 1 / (1 + np.exp(-(-0.5 + 0.7 * A + 0.4 * L2 - 0.3 * x)))
     Y = (rng.uniform(size=n) < py).astype(float)
@@ -180,8 +187,9 @@ def iptw_cell(chk, drv, df, cfg, refs, dsid, rec):
     mn = refs('A ~ ' + numer, wcol) if stab else None
     if md is None or (stab and mn is None):
         return
-    p_raw = np.asarray(md.predict(df))
-    q_raw = np.asarray(mn.predict(df)) if stab else np.ones(len(df))
+    dfp = df.reset_index(drop=True)
+    p_raw = np.asarray(md.predict(dfp))
+    q_raw = np.asarray(mn.predict(dfp)) if stab else np.ones(len(df))
     p, q = clip(p_raw, bound), clip(q_raw, bound)
     clipped = bool(np.any(p != p_raw))
     cols = ['L1', 'L2', 'x', 'A', 'Y'] + ([wcol] if wcol else [])
@@ -246,6 +254,112 @@ def ipmw_outcome_cell(chk, drv, df, cfg, refs, dsid, rec):
                          **bound_kw(bound))
         chk.k(rep['status'] == 'ok' and allclose(unf_opt(rep['w']), got, **TOLD),
               'IPTW.ipmw = Lean model on the reference predictions', dict(case, model=rep.get('status')))
+
+
+def expected_iptw(df, spec, refs, wcol, tgt):
+    """documented IPTW weights for a treatment_model specification (None if a reference fit was discarded)"""
+    stab, numer, bound, denom = spec['stabilized'], spec['numerator'], spec['bound'], spec['denominator']
+    md = refs('A ~ ' + denom, wcol)
+    mn = refs('A ~ ' + numer, wcol) if stab else None
+    if md is None or (stab and mn is None):
+        return None
+    dfp = df.reset_index(drop=True)
+    p = clip(np.asarray(md.predict(dfp)), bound)
+    q = clip(np.asarray(mn.predict(dfp)) if stab else np.ones(len(df)), bound)
+    return iptw_documented(df['A'].values, p, q, stab, tgt)
+
+
+def expected_ipmw(chk, df, spec, wcol):
+    """documented outcome-missingness weights for a missing_model specification"""
+    stab, numer, bound = spec['stabilized'], spec['numerator'], spec['bound']
+    d2 = df.copy()
+    d2['R'] = d2['Y'].notna().astype(int)
+    md = ref_fit(chk, 'R ~ ' + spec['denominator'], d2, wcol)
+    mn = ref_fit(chk, 'R ~ ' + (numer if numer is not None else 'A'), d2, wcol) if stab else None
+    if md is None or (stab and mn is None):
+        return None
+    d_raw = np.asarray(md.predict(d2))
+    n_raw = np.asarray(mn.predict(d2)) if stab else np.ones(len(df))
+    return np.where(d2['R'].values == 1, n_raw / clip(d_raw, bound), np.nan)
+
+
+def msm_estimates(ipt):
+    out = {}
+    for name, col in (('risk_difference', 'RD'), ('risk_ratio', 'RR'), ('odds_ratio', 'OR'),
+                      ('average_treatment_effect', 'ATE')):
+        tab = getattr(ipt, name)
+        if tab is not None:
+            out[col] = [float(v) for v in tab[col].values]
+    return out
+
+
+def same_estimates(a, b, rtol=1e-9):
+    return a.keys() == b.keys() and all(allclose(a[k], b[k], rtol=rtol, atol=1e-12) for k in a)
+
+
+def iptw_history_cell(chk, drv, df, cfg, refs, dsid, rec):
+    """a history of calls on ONE IPTW object: (re)specified treatment / missing models, diagnostics, repeated fits.
+    After every step the exposed weights must still be the documented weights of the LAST specification, and every fit
+    must return what a fresh object given the last specification returns."""
+    from zepid.causal.ipw import IPTW
+    wcol, tgt, steps = cfg['weights'], cfg['standardize'], cfg['steps']
+    case = {'kind': 'IPTW-history', 'cfg': cfg, 'data': rec}
+    cols = ['L1', 'L2', 'x', 'A', 'Y'] + ([wcol] if wcol else [])
+    chk.case(case, (dsid, 'IPTW-history', repr(cfg)), sample={'kind': 'IPTW-history', 'steps': [s['op'] for s in steps],
+                                                                'n': len(df)} if chk.evals % 7 == 0 else None)
+    chk.count('IPTW/history/%s' % '-'.join(s['op'] for s in steps))
+    ipt = IPTW(df[cols], treatment='A', outcome='Y', weights=wcol, standardize=tgt)
+    ipt.marginal_structural_model('A')
+    lastT = lastM = None
+    want_t = want_m = None
+    for k, st in enumerate(steps):
+        if st['op'] == 'T':
+            ipt.treatment_model(st['denominator'], model_numerator=st['numerator'], stabilized=st['stabilized'],
+                                bound=st['bound'], print_results=False)
+            lastT, want_t = st, expected_iptw(df, st, refs, wcol, tgt)
+        elif st['op'] == 'M':
+            ipt.missing_model(st['denominator'], model_numerator=st['numerator'], stabilized=st['stabilized'],
+                              bound=st['bound'], print_results=False)
+            lastM, want_m = st, expected_ipmw(chk, df, st, wcol)
+        elif st['op'] == 'P':
+            ipt.positivity()      # (standardized_mean_differences() cannot run under the installed numpy: outside C05)
+        elif st['op'] == 'F':
+            ipt.fit()
+            got = msm_estimates(ipt)
+            fresh = IPTW(df[cols], treatment='A', outcome='Y', weights=wcol, standardize=tgt)
+            fresh.treatment_model(lastT['denominator'], model_numerator=lastT['numerator'], stabilized=lastT['stabilized'],
+                                  bound=lastT['bound'], print_results=False)
+            if lastM is not None:
+                fresh.missing_model(lastM['denominator'], model_numerator=lastM['numerator'],
+                                    stabilized=lastM['stabilized'], bound=lastM['bound'], print_results=False)
+            fresh.marginal_structural_model('A')
+            fresh.fit()
+            chk.d(same_estimates(got, msm_estimates(fresh)), 'IPTW.fit on a reused object (step %d of %s) = fit of a fresh '
+                  'object given the last specification' % (k, '-'.join(s['op'] for s in steps)),
+                  dict(case, step=k, reused=got, fresh=msm_estimates(fresh)))
+        if want_t is None and lastT is not None or (lastM is not None and want_m is None):
+            return          # a reference fit was discarded
+        if lastT is not None:
+            chk.d(allclose(np.asarray(ipt.iptw, dtype=float), want_t, **TOLD),
+                  'IPTW.iptw = documented weights of the last treatment_model specification after step %d (%s) of the '
+                  'history %s' % (k, st['op'], '-'.join(s['op'] for s in steps)),
+                  dict(case, step=k, impl_head=np.asarray(ipt.iptw, dtype=float)[:6].tolist(), want_head=want_t[:6].tolist()))
+        if lastM is not None:
+            chk.d(allclose(np.asarray(ipt.ipmw, dtype=float), want_m, **TOLD),
+                  'IPTW.ipmw = documented weights of the last missing_model specification after step %d (%s) of the '
+                  'history %s' % (k, st['op'], '-'.join(s['op'] for s in steps)), dict(case, step=k))
+
+
+def histories(missing):
+    T1 = dict(op='T', denominator='C(L1) + L2 + x', numerator='1', stabilized=True, bound=False)
+    T2 = dict(op='T', denominator='L2 + x', numerator='C(L1)', stabilized=True, bound=[0.3, 0.7])
+    T3 = dict(op='T', denominator='C(L1) + L2 + x', numerator='1', stabilized=False, bound=0.3)
+    M1 = dict(op='M', denominator='A + L2 + x', numerator=None, stabilized=True, bound=False)
+    M2 = dict(op='M', denominator='A + L2', numerator='A + L2', stabilized=True, bound=[0.3, 0.8])
+    F, P = dict(op='F'), dict(op='P')
+    if missing:
+        return [[T1, M1, F, F], [T3, F, T2, M2, P, F, F], [T1, M2, F, M1, T3, F]]
+    return [[T1, F, F], [T3, F, P, T2, F], [T2, P, F, T1, F]]
 
 
 def plan_prob(df, p, conditional):
@@ -326,6 +440,60 @@ def run_iptw_family(chk, drv, rng, tier):
                 ps = [float(v) for v in np.round(rng.uniform(0, 1, size=len(cs)), 2)]
                 cfg = dict(weights=wcol, p=ps, conditional=cs, denominator=denom)
                 guard(chk, 'StochasticIPTW', cfg, rec, stoch_cell, drv, df, cfg, refs, dsid, rec)
+    # histories on one object (with and without missing outcomes)
+    for i in range(2 if tier == 'quick' else 8):
+        miss = i % 2 == 0
+        df = relabel(mixed_dataset(rng, missing=miss), rng, ['default', 'shuffled', 'shifted'][i % 3])
+        rec = {'frame': gen.frame_record(df), 'n': len(df)}
+        cache = {}
+
+        def refs(formula, wcol, df=df, cache=cache):
+            if (formula, wcol) not in cache:
+                cache[(formula, wcol)] = ref_fit(chk, formula, df, wcol)
+            return cache[(formula, wcol)]
+        for j, steps in enumerate(histories(miss)):
+            cfg = dict(weights=('w' if (i + j) % 2 else None), standardize=['population', 'exposed', 'unexposed'][j % 3],
+                       steps=steps)
+            guard(chk, 'IPTW-history', cfg, rec, iptw_history_cell, drv, df, cfg, refs, frame_hash(df), rec)
+    # rare / near-universal treatment: the marginal numerator probability itself lies outside the truncation bounds
+    for i in range(2 if tier == 'quick' else 8):
+        prev = ['low', 'high'][i % 2]
+        df = relabel(mixed_dataset(rng, prevalence=prev), rng, ['shifted', 'default', 'shuffled'][i % 3])
+        rec = {'frame': gen.frame_record(df, limit=800), 'n': len(df)}
+        cache = {}
+
+        def refs(formula, wcol, df=df, cache=cache):
+            if (formula, wcol) not in cache:
+                cache[(formula, wcol)] = ref_fit(chk, formula, df, wcol)
+            return cache[(formula, wcol)]
+        bounds = [0.1, [0.12, 0.95]] if prev == 'low' else [0.1, [0.05, 0.88]]
+        for tgt in ('population', 'exposed', 'unexposed'):
+            for stab, numer in ((True, '1'), (True, 'L2'), (False, '1')):
+                for bound in bounds:
+                    cfg = dict(weights=(None if i < 2 else 'w'), standardize=tgt, stabilized=stab, numerator=numer,
+                               bound=bound, denominator='C(L1) + L2 + x')
+                    guard(chk, 'IPTW', cfg, rec, iptw_cell, drv, df, cfg, refs, frame_hash(df), rec)
+        mq = refs('A ~ 1', None)
+        if mq is not None:
+            chk.count('IPTW/prevalence-%s/marginal-outside-bounds' % prev,
+                      int(not (0.12 <= float(np.asarray(mq.predict(df))[0]) <= 0.88)))
+    # container / dtype / label variants: fixed-width integer columns, string row labels, repeated row labels
+    for i in range(2 if tier == 'quick' else 6):
+        df = mixed_dataset(rng)
+        df = df.astype({'A': [np.int8, np.uint8, np.int32][i % 3], 'L1': np.int16, 'L2': np.uint8, 'w': np.int32})
+        df.index = ['r%05d' % v for v in rng.permutation(len(df))] if i % 2 == 0 else np.repeat(7, len(df))
+        rec = {'frame': gen.frame_record(df), 'n': len(df), 'dtypes': {c: str(t) for c, t in df.dtypes.items()}}
+        cache = {}
+
+        def refs(formula, wcol, df=df.reset_index(drop=True), cache=cache):
+            if (formula, wcol) not in cache:
+                cache[(formula, wcol)] = ref_fit(chk, formula, df, wcol)
+            return cache[(formula, wcol)]
+        for tgt, stab, numer, bound in (('population', True, '1', False), ('exposed', True, 'C(L1)', 0.3),
+                                        ('unexposed', False, '1', [0.35, 0.6])):
+            cfg = dict(weights=('w' if i % 2 else None), standardize=tgt, stabilized=stab, numerator=numer, bound=bound,
+                       denominator='C(L1) + L2 + x', variant='dtypes+labels')
+            guard(chk, 'IPTW', cfg, rec, iptw_cell, drv, df, cfg, refs, frame_hash(df), rec)
     # outcome missingness weights
     for i in range(4 if tier == 'quick' else 16):
         df = relabel(mixed_dataset(rng, missing=True), rng, ['shuffled', 'default', 'shifted'][i % 3])
@@ -427,6 +595,16 @@ def ipmw_cell(chk, drv, df, cfg, dsid, rec):
     chk.d(list(ip.Weight.index) == list(df.index) and allclose(got, want, **TOLD),
           'IPMW.Weight = numerator / product of the conditional observation probabilities along the chain (each fitted '
           'among rows observed on the previous variable), NaN for rows not observed on the last variable', case)
+    # D (history): specifying the models and fitting a second time on the same object changes nothing
+    n_first = len(calls)
+    if single:
+        ip.regression_models(models_d[0], model_numerator=models_n[0], print_results=False)
+    else:
+        ip.regression_models(models_d, model_numerator=(models_n if stab else '1'), print_results=False)
+    ip.fit()
+    chk.d(allclose(np.asarray(ip.Weight.reindex(df.index), dtype=float), got, rtol=1e-12, atol=0),
+          'IPMW: regression_models() + fit() a second time on the same object gives the same weights', case)
+    calls = calls[:n_first]
     # D: fitting sets = rows observed on the previous variable
     pos = {lab: i for i, lab in enumerate(df.index)}
     seen = [(f, sorted(pos[l] for l in idx)) for f, idx in calls]
@@ -591,6 +769,11 @@ def ipcw_cell(chk, drv, df, cfg, dsid, rec):
     chk.d(sorted(got.index) == sorted(df.index) and allclose(got.reindex(df.index).values, want, **TOLD),
           'IPCW.Weight = running product within subject, in time order, of numerator over denominator probabilities',
           dict(case, impl_head=got.reindex(df.index).values[:8].tolist(), want_head=want[:8].tolist()))
+    first = got.copy()
+    ipc.regression_models(cfg['denominator'], cfg['numerator'], print_results=False)
+    ipc.fit()
+    chk.d(allclose(ipc.Weight.reindex(df.index).values, first.reindex(df.index).values, rtol=1e-12, atol=0),
+          'IPCW: regression_models() + fit() a second time on the same object gives the same weights', case)
     if drv is not None:
         ids = df['id'].tolist()
         rep, _ = drv.ask('ipcw', id=enc_list(ids, str), time=enc_list(df['t'].tolist(), rq),
@@ -738,14 +921,15 @@ def replay(rec):
         cfg = c.get('cfg', {})
         with common.quiet():
             kind = c.get('kind')
-            if kind in ('IPTW', 'StochasticIPTW'):
+            if kind in ('IPTW', 'StochasticIPTW', 'IPTW-history'):
                 cache = {}
 
                 def refs(formula, wcol):
                     if (formula, wcol) not in cache:
-                        cache[(formula, wcol)] = ref_fit(chk, formula, df, wcol)
+                        cache[(formula, wcol)] = ref_fit(chk, formula, df.reset_index(drop=True), wcol)
                     return cache[(formula, wcol)]
-                (iptw_cell if kind == 'IPTW' else stoch_cell)(chk, None, df, cfg, refs, 0, data)
+                {'IPTW': iptw_cell, 'StochasticIPTW': stoch_cell, 'IPTW-history': iptw_history_cell}[kind](
+                    chk, None, df, cfg, refs, 0, data)
             elif kind == 'IPTW.missing_model':
                 ipmw_outcome_cell(chk, None, df, cfg, None, 0, data)
             elif kind == 'IPMW':
